@@ -241,6 +241,27 @@ def exec_state(df, st, emb, magc, part, variant=0):
                 break
         part.count()
         part.nontriv(str(m), nv, str(st["v0"]), str(valid), str(hist), "norm", mname, emb.name)
+        # the same vectors as an INTEGER field (dtype given explicitly) whose squared lengths leave the integer range: the
+        # norm is still the Euclidean length (seeded change C15-13 computed the sum of squares in the array's own dtype)
+        if not hist and mname == "1/1" and variant % 2 == 0:
+            for dt, scale in ((np.int32, 10000), (np.int64, 10**9)):
+                try:
+                    fi = df.Field(mesh, nvdim=nv, value=(np.array(st["v0"], dtype=np.int64) * scale).astype(dt).reshape((-1, nv)).reshape(
+                        tuple(reversed(n)) + (nv,)).transpose(tuple(range(len(n) - 1, -1, -1)) + (len(n),)), dtype=dt)
+                    gi = fldmod.flatten(fi.norm.array)
+                except Exception as ex:  # noqa: BLE001
+                    part.violation(key("C15_NormIsEuclidean", "norm", f"integer-dtype-raises/{dt.__name__}"),
+                                   "norm of an integer-typed field raises", wit(exc=repr(ex)))
+                    break
+                for q, (num, den) in enumerate(obs["norm"]):
+                    w = Fraction(num, den) * scale
+                    gq = gi[q][0]
+                    if (w == 0 and gq != 0) or not math.isfinite(gq) or abs(Fraction(float(gq)) - w) > Fraction(1, 10**9) * w:
+                        part.violation(key("C15_NormIsEuclidean", "norm", f"{'scalar' if nv == 1 else 'vector'}/integer-dtype-{dt.__name__}"),
+                                       "norm of an integer-typed field is not the Euclidean length of the cell's vector",
+                                       wit(cell=q, got=gq, want=float(w), scale=scale))
+                        break
+                part.count()
     elif act[0] == "orientation":
         try:
             o = f.orientation
